@@ -274,7 +274,7 @@ def check_c11(tier, seed, replay=None):
         "structs incl. readonly and opcodes (numeric and 4-char), messages with unordered indices, unions with struct / message branches, deprecations, doc comments; plus every ordered "
         "pair and sampled triples of definition kinds) rendered under the canonical layout and 2-3 random permitted layouts (CRLF, tabs, blank lines, one-line bodies, spacing of -> , ; and "
         "types, array[T] vs T[], final newline or not); ReadFile's File (canonical dump) must equal the dump computed from the AST, for every layout; the extracted model runs on the same text",
-        "props/C11.v", ["C11_partial", "C11_lex", "C11_structs", "C11_records"])
+        "props/C11.v", ["C11_partial", "C11_lex", "C11_structs", "C11_records", "C11_schema"])
     rng = SplitMix64(seed).fork("C11")
     cases = c11_cases(rng, tier)
     # hand-written cases for attachments the generator does not produce
@@ -605,7 +605,7 @@ def check_fmt(pid, tier, seed, replay=None):
             "Format must terminate without error; " +
             ("ReadFile(Format(x)) must be accepted and equal ReadFile(x) with doc comments erased" if pid == "C16" else "Format(Format(x)) must equal Format(x) byte for byte") +
             "; the extracted formatter model's output is compared byte for byte on every text; distinct = distinct texts")
-    run, broken = base_run(pid, tier, seed, rule, "props/%s.v" % pid, ["%s_partial" % pid, "%s_structs" % pid, "%s_records" % pid])
+    run, broken = base_run(pid, tier, seed, rule, "props/%s.v" % pid, ["%s_partial" % pid, "%s_structs" % pid, "%s_records" % pid, "%s_schema" % pid])
     run.cov["explanation"] = ("partial: proved are that Format panics on no input and the instances of the statement on the four texts that were mangled before the formatter was repaired "
                               "(%s_partial, coq/props/%s.v); the general statement needs the inversion of the tokenizer on the formatter's output and is decided by this run: "
                               "the property evaluated on the implementation, and the formatter model compared byte for byte" % (pid, pid))
